@@ -50,14 +50,18 @@ def digitsUnderscoreOK : Bytes → Bool
 
 def dropWhileEnd (p : Nat → Bool) (l : Bytes) : Bytes := (l.reverse.dropWhile p).reverse
 
+/-- an optional leading sign -/
+def stripSign (t : Bytes) : Bool × Bytes :=
+  match t with
+  | 45 :: r => (true, r)
+  | 43 :: r => (false, r)
+  | r => (false, r)
+
 /-- `int(x)` for a bytes value: optional surrounding ASCII whitespace, optional sign, decimal digits
     with single underscores between digits; `ValueError` otherwise -/
 def pyInt (x : Bytes) : R Int :=
   let t := dropWhileEnd isSpace (x.dropWhile isSpace)
-  let (neg, t) := match t with
-    | 45 :: r => (true, r)
-    | 43 :: r => (false, r)
-    | r => (false, r)
+  let (neg, t) := stripSign t
   if t.head?.map isDig = some true ∧ digitsUnderscoreOK t then
     let v : Nat := (t.filter isDig).foldl (fun acc b => acc * 10 + (b - 48)) 0
     .ok (if neg then -(v : Int) else v)
